@@ -438,3 +438,114 @@ Proof.
   rewrite (tab_store_fld _ (s4 :: rest) 0 7 (VInt (wrap I16 td)) _ (set_cs_td s4 (wrap I16 td)) Hm4 Ht4) by (try lia; reflexivity). xstep.
   rewrite upd_upd by exact Hb. reflexivity.
 Qed.
+
+(* ------------------------------------------------------------------ ex_path, ex_filetype: slot 0's path cell, the address of slot 0's ft *)
+Theorem tr_ex_path m t d fuel : tab_at m t -> tab_ok t -> ptr_val (cs_path (nths t 0)) ->
+  callf cprog fuel (S d) F_ex_path [] m = Ok (cs_path (nths t 0), m).
+Proof.
+  intros Hm [Hl Hs] Hp. enter F_ex_path cf_ex_path. xstep. slot_off 0%nat 0%nat.
+  rewrite (tab_load m t 0 0 (cs_path (nths t 0)) _ Hm Hs) by (try lia; reflexivity). xstep.
+  destruct Hp as [E|[b [o E]]]; rewrite E; reflexivity.
+Qed.
+Theorem tr_ex_filetype m d fuel : callf cprog fuel (S d) F_ex_filetype [] m = Ok (VPtr G_bufs 0, m).
+Proof. enter F_ex_filetype cf_ex_filetype. xstep. reflexivity. Qed.
+
+(* ------------------------------------------------------------------ bufs_load (calls the untranslated reg_put: relative to the oracle) *)
+Definition set_globs (m : mem) (r o tp l td : Z) : mem :=
+  upd (upd (upd (upd (upd m G_xrow [VInt r]) G_xoff [VInt o]) G_xtop [VInt tp]) G_xleft [VInt l]) G_xtd [VInt td].
+Definition short_ok (z : Z) : Prop := -32768 <= z <= 32767.
+(* the integer fields of a slot are inside their C types *)
+Definition slot_ints (s : cslot) : Prop :=
+  int_ok (cs_row s) /\ int_ok (cs_off s) /\ int_ok (cs_top s) /\ int_ok (cs_left s) /\ short_ok (cs_id s) /\ short_ok (cs_td s).
+Definition path_arg (v : val) : val := if is_null v then VPtr G_lit__0 0 else v.
+
+Lemma tab_at_upd_other m g blk t : g <> G_bufs -> (g < length m)%nat -> tab_at m t -> tab_at (upd m g blk) t.
+Proof. intros Hne Hg H. unfold tab_at in *. rewrite mem_upd_other by (try assumption; congruence). exact H. Qed.
+Lemma cell_lt m g v : cell_at m g v -> (g < length m)%nat.
+Proof. intro H. apply nth_error_Some. unfold cell_at in H. congruence. Qed.
+Lemma x_reg_put_none : nth_error cprog X_reg_put = None.
+Proof. vm_compute. reflexivity. Qed.
+Lemma x_lbuf_free_none : nth_error cprog X_lbuf_free = None.
+Proof. vm_compute. reflexivity. Qed.
+Ltac enterx f cf :=
+  rewrite callx_S; cbn [nth_error cprog f cf fn_nparams fn_nlocals fn_body length Nat.eqb Nat.sub repeat app].
+
+Lemma globs_set m r0 o0 tp0 l0 td0 r o tp l td : globs_at m r0 o0 tp0 l0 td0 -> globs_at (set_globs m r o tp l td) r o tp l td.
+Proof.
+  intros [H1 H2 H3 H4 H5]. unfold set_globs.
+  pose proof (cell_lt _ _ _ H1). pose proof (cell_lt _ _ _ H2). pose proof (cell_lt _ _ _ H3). pose proof (cell_lt _ _ _ H4). pose proof (cell_lt _ _ _ H5).
+  constructor; unfold cell_at;
+    repeat first [ rewrite mem_upd_same by (rewrite ?upd_length; rewrite ?upd_length; rewrite ?upd_length; rewrite ?upd_length; assumption); reflexivity
+                 | rewrite mem_upd_other by (try discriminate; rewrite ?upd_length; rewrite ?upd_length; rewrite ?upd_length; rewrite ?upd_length; assumption) ].
+Qed.
+Lemma set_globs_other m r o tp l td r0 o0 tp0 l0 td0 b : globs_at m r0 o0 tp0 l0 td0 ->
+  b <> G_xrow -> b <> G_xoff -> b <> G_xtop -> b <> G_xleft -> b <> G_xtd ->
+  nth_error (set_globs m r o tp l td) b = nth_error m b.
+Proof.
+  intros [H1 H2 H3 H4 H5] N1 N2 N3 N4 N5. unfold set_globs.
+  pose proof (cell_lt _ _ _ H1). pose proof (cell_lt _ _ _ H2). pose proof (cell_lt _ _ _ H3). pose proof (cell_lt _ _ _ H4). pose proof (cell_lt _ _ _ H5).
+  repeat (rewrite mem_upd_other by (try assumption; rewrite ?upd_length; rewrite ?upd_length; rewrite ?upd_length; rewrite ?upd_length; assumption)).
+  reflexivity.
+Qed.
+
+(* bufs_load(): xrow xoff xtop xleft xtd := the fields of slot 0; then reg_put('%', bufs[0].path ? bufs[0].path : "", 0).
+   The memory handed to reg_put is explicit; what reg_put does with it is the oracle's answer. *)
+Theorem tr_bufs_load ext m t r0 o0 tp0 l0 td0 u m' d fuel : tab_at m t -> tab_ok t -> globs_at m r0 o0 tp0 l0 td0 ->
+  slot_ints (nths t 0) -> ptr_val (cs_path (nths t 0)) ->
+  let s := nths t 0 in
+  ext X_reg_put [VInt 37; path_arg (cs_path s); VInt 0] (set_globs m (cs_row s) (cs_off s) (cs_top s) (cs_left s) (cs_td s)) = Ok (u, m') ->
+  callx ext cprog fuel (S (S d)) F_bufs_load [] m = Ok (VUndef, m').
+Proof.
+  intros Hm Ht Hg Hints Hp s Hext. fold s in Hints, Hp. destruct Hints as (Ir & Io & Itp & Il & Iid & Itd).
+  pose proof Ht as [Hl Hs]. pose proof Hg as [G1 G2 G3 G4 G5].
+  pose proof (cell_lt _ _ _ G1) as L1. pose proof (cell_lt _ _ _ G2) as L2. pose proof (cell_lt _ _ _ G3) as L3.
+  pose proof (cell_lt _ _ _ G4) as L4. pose proof (cell_lt _ _ _ G5) as L5.
+  enterx F_bufs_load cf_bufs_load. xstep.
+  (* xrow *)
+  slot_off 0%nat 2%nat. rewrite (tab_load m t 0 2 (VInt (cs_row s)) _ Hm Hs) by (try lia; reflexivity). xstep.
+  rewrite !(wrap_int_ok _ Ir). rewrite (store_cell m G_xrow r0 _ G1). xstep.
+  set (m1 := upd m G_xrow [VInt (cs_row s)]).
+  assert (Hm1 : tab_at m1 t) by (apply tab_at_upd_other; [discriminate|exact L1|exact Hm]).
+  assert (G2' : cell_at m1 G_xoff o0) by (apply cell_at_upd_other; [exact L1|discriminate|exact G2]).
+  (* xoff *)
+  slot_off 0%nat 3%nat. rewrite (tab_load m1 t 0 3 (VInt (cs_off s)) _ Hm1 Hs) by (try lia; reflexivity). xstep.
+  rewrite !(wrap_int_ok _ Io). rewrite (store_cell m1 G_xoff o0 _ G2'). xstep.
+  set (m2 := upd m1 G_xoff [VInt (cs_off s)]).
+  assert (L1' : (G_xoff < length m1)%nat) by (unfold m1; rewrite upd_length by exact L1; exact L2).
+  assert (Hm2 : tab_at m2 t) by (apply tab_at_upd_other; [discriminate|exact L1'|exact Hm1]).
+  assert (G3' : cell_at m2 G_xtop tp0) by (apply cell_at_upd_other; [exact L1'|discriminate|apply cell_at_upd_other; [exact L1|discriminate|exact G3]]).
+  (* xtop *)
+  slot_off 0%nat 4%nat. rewrite (tab_load m2 t 0 4 (VInt (cs_top s)) _ Hm2 Hs) by (try lia; reflexivity). xstep.
+  rewrite !(wrap_int_ok _ Itp). rewrite (store_cell m2 G_xtop tp0 _ G3'). xstep.
+  set (m3 := upd m2 G_xtop [VInt (cs_top s)]).
+  assert (L2' : (G_xtop < length m2)%nat) by (unfold m2; rewrite upd_length by exact L1'; unfold m1; rewrite upd_length by exact L1; exact L3).
+  assert (Hm3 : tab_at m3 t) by (apply tab_at_upd_other; [discriminate|exact L2'|exact Hm2]).
+  assert (G4' : cell_at m3 G_xleft l0).
+  { apply cell_at_upd_other; [exact L2'|discriminate|]. apply cell_at_upd_other; [exact L1'|discriminate|]. apply cell_at_upd_other; [exact L1|discriminate|exact G4]. }
+  (* xleft *)
+  slot_off 0%nat 5%nat. rewrite (tab_load m3 t 0 5 (VInt (cs_left s)) _ Hm3 Hs) by (try lia; reflexivity). xstep.
+  rewrite !(wrap_int_ok _ Il). rewrite (store_cell m3 G_xleft l0 _ G4'). xstep.
+  set (m4 := upd m3 G_xleft [VInt (cs_left s)]).
+  assert (L3' : (G_xleft < length m3)%nat).
+  { unfold m3; rewrite upd_length by exact L2'; unfold m2; rewrite upd_length by exact L1'; unfold m1; rewrite upd_length by exact L1; exact L4. }
+  assert (Hm4 : tab_at m4 t) by (apply tab_at_upd_other; [discriminate|exact L3'|exact Hm3]).
+  assert (G5' : cell_at m4 G_xtd td0).
+  { apply cell_at_upd_other; [exact L3'|discriminate|]. apply cell_at_upd_other; [exact L2'|discriminate|].
+    apply cell_at_upd_other; [exact L1'|discriminate|]. apply cell_at_upd_other; [exact L1|discriminate|exact G5]. }
+  (* xtd *)
+  slot_off 0%nat 7%nat. rewrite (tab_load m4 t 0 7 (VInt (cs_td s)) _ Hm4 Hs) by (try lia; reflexivity). xstep.
+  rewrite (wrap_I16_id _ Itd). rewrite !(wrap_int_ok (cs_td s)) by (unfold int_ok, short_ok in *; lia).
+  rewrite (store_cell m4 G_xtd td0 _ G5'). xstep.
+  set (m5 := upd m4 G_xtd [VInt (cs_td s)]).
+  assert (L4' : (G_xtd < length m4)%nat).
+  { unfold m4; rewrite upd_length by exact L3'; unfold m3; rewrite upd_length by exact L2'; unfold m2; rewrite upd_length by exact L1';
+    unfold m1; rewrite upd_length by exact L1; exact L5. }
+  assert (Hm5 : tab_at m5 t) by (apply tab_at_upd_other; [discriminate|exact L4'|exact Hm4]).
+  (* reg_put *)
+  slot_off 0%nat 0%nat. rewrite (tab_load m5 t 0 0 (cs_path s) _ Hm5 Hs) by (try lia; reflexivity).
+  change m5 with (set_globs m (cs_row s) (cs_off s) (cs_top s) (cs_left s) (cs_td s)) in *.
+  destruct Hp as [E|[b [o E]]]; rewrite E in *; xstep.
+  - rewrite callx_S, x_reg_put_none. cbn [path_arg is_null] in Hext. rewrite Hext. reflexivity.
+  - slot_off 0%nat 0%nat. rewrite (tab_load _ t 0 0 (cs_path s) _ Hm5 Hs) by (try lia; reflexivity). rewrite E. xstep.
+    rewrite callx_S, x_reg_put_none. cbn [path_arg is_null] in Hext. rewrite Hext. reflexivity.
+Qed.
